@@ -21,6 +21,7 @@ import torch
 from . import common, opbuild
 from . import c18_model as M
 from . import c18_noise as N
+from . import c18_hist as H
 
 PROP = "C18"
 
@@ -58,6 +59,8 @@ def tt64(t):
 
 def gen_leaf(rng, cls, batch, n):
     batch = list(batch)
+    if cls in H.VAR_LEAVES:                    # members with different spectra / scales (c18_hist, family b)
+        return H.gen_var_leaf(rng, cls, batch, n)
     if cls in ("Chol", "CholU"):
         t = torch.tril(tt64(opbuild.rand_t(rng, batch + [n, n], -2, 2)))
         dg = tt64(opbuild.rand_t(rng, batch + [n], 1, 3))
@@ -125,11 +128,16 @@ STRUCT_GRID = ["PsdSum", "BlockDiag", "BlockInterleaved", "SumBatch", "Interpola
                # outside the modelled fragment (direct predicate only): block_dim != -3, broadcasting batch shapes
                "BlockDiagDim0", "PsdSumBroadcast"]
 CHILD_ROT = ["Dense", "Diag", "Root", "Identity", "Toeplitz", "ConstantDiag", "Chol", "DenseSpec", "AddedDiag", "LowRank"]
+# family (b): the same structured samplers over children whose batch members have different spectra and scales
+STRUCT_VAR = [c + "@var" for c in STRUCT_GRID if c not in ("InterpolatedPerm", "InterpolatedAsym")]
 
 
-def gen_struct(rng, cls, batch, n, rot):
+def gen_struct(rng, cls, batch, n, rot, var=False):
     batch = list(batch)
-    ch = lambda i: CHILD_ROT[(rot + i) % len(CHILD_ROT)]
+    if cls.endswith("@var"):
+        cls, var = cls[:-4], True
+    pool = H.VAR_CHILD_ROT if var else CHILD_ROT
+    ch = lambda i: pool[(rot + i) % len(pool)]
     leaf = lambda c, b, m: gen_leaf(rng, c, b, m)
     if cls == "PsdSum":
         cnt = 2 + rot % 2
@@ -142,11 +150,11 @@ def gen_struct(rng, cls, batch, n, rot):
         return gen_interp(rng, base, batch, n, {"Interpolated": "sym", "InterpolatedPerm": "perm", "InterpolatedAsym": "asym"}[cls])
     if cls == "BlockDiag(PsdSum)":
         nb = 1 + rot % 2
-        return {"cls": "BlockDiag", "base": gen_struct(rng, "PsdSum", batch + [nb], n, rot + 1), "block_dim": -3}
+        return {"cls": "BlockDiag", "base": gen_struct(rng, "PsdSum", batch + [nb], n, rot + 1, var), "block_dim": -3}
     if cls == "PsdSum(BlockDiag,Interpolated)":
         bd = {"cls": "BlockDiag", "base": leaf(ch(0), batch + [2], n), "block_dim": -3}
         ip = gen_interp(rng, leaf(ch(1), batch, 3), batch, 2 * n)
-        return {"cls": "PsdSum", "ops": [bd, ip, leaf("Diag", batch, 2 * n)]}
+        return {"cls": "PsdSum", "ops": [bd, ip, leaf("DiagVar" if var else "Diag", batch, 2 * n)]}
     if cls == "Interpolated(BlockInterleaved)":
         bi = {"cls": "BlockInterleaved", "base": leaf(ch(0), batch + [2], 2), "block_dim": -3}
         return gen_interp(rng, bi, batch, n)
@@ -154,16 +162,16 @@ def gen_struct(rng, cls, batch, n, rot):
         nb = 2
         return {"cls": "SumBatch", "base": gen_interp(rng, leaf(ch(0), batch + [nb], 3), batch + [nb], n), "block_dim": -3}
     if cls == "Interpolated(PsdSum)":
-        return gen_interp(rng, gen_struct(rng, "PsdSum", batch, 3, rot + 2), batch, n)
+        return gen_interp(rng, gen_struct(rng, "PsdSum", batch, 3, rot + 2, var), batch, n)
     if cls == "PsdSum(PsdSum)":
-        return {"cls": "PsdSum", "ops": [gen_struct(rng, "PsdSum", batch, n, rot + 3), leaf(ch(1), batch, n)]}
+        return {"cls": "PsdSum", "ops": [gen_struct(rng, "PsdSum", batch, n, rot + 3, var), leaf(ch(1), batch, n)]}
     if cls == "BlockDiagDim0":
         nb = 1 + rot % 3
         return {"cls": "BlockDiag", "base": leaf(ch(0), [nb] + batch, n), "block_dim": -3 - len(batch)}
     if cls == "PsdSumBroadcast":
         b1 = [x if i % 2 == 0 else 1 for i, x in enumerate(batch)]
         b2 = [x if i % 2 == 1 else 1 for i, x in enumerate(batch)]
-        return {"cls": "PsdSum", "ops": [leaf(ch(0), b1, n), leaf(ch(1), b2, n), leaf("Diag", [], n)]}
+        return {"cls": "PsdSum", "ops": [leaf(ch(0), b1, n), leaf(ch(1), b2, n), leaf("DiagVar" if var else "Diag", [], n)]}
     if cls == "InterpolatedBroadcast":
         base = leaf(ch(0), batch, 2 + rot % 3)
         return gen_interp(rng, base, [], n)
@@ -174,23 +182,103 @@ def gen_struct(rng, cls, batch, n, rot):
 
 
 def gen_expr(rng, cls, batch, n, rot):
-    if cls in STRUCT_GRID:
+    if cls in STRUCT_GRID or cls in STRUCT_VAR:
         return gen_struct(rng, cls, batch, n, rot)
     return gen_leaf(rng, cls, batch, n)
 
 
 # float tensors in expressions: opbuild.tt handles {"shape","data"} with float data (torch.tensor(..., dtype))
 
-BATCHES = opbuild.BATCHES
+BATCHES = opbuild.BATCHES + [[3], [2, 2], [2, 1, 2]]         # [], [1], [2], [2,1], [1,3], [2,3], [3], [2,2], [2,1,2]
+MULTI = [i for i, b in enumerate(BATCHES) if M.prod(b) >= 2]       # batches with at least two members
 SIZES = [1, 2, 3, 5]
 KS = [1, 3]
+
+# family (a): classes whose sampler reads a memoized decomposition, histories applied to the object / its generic leaves
+HIST_CLS = ["DenseVar", "AddedDiagVar", "PsdSum@var", "SumVar", "KronVar", "BlockDiag@var", "ConstantMulVar", "Dense",
+            "Interpolated@var", "Toeplitz", "BlockInterleaved@var", "SumBatch@var"]
+HIST_BATCH = [[0, 1], [2, 6], [5, 7, 8, 4, 3]]                    # non-batch / one batch dim / several batch dims
+TARGETS = ["top", "leaf", "all"]
+TRANSPLANT_HIST = [[], ["rd"], ["cholesky"], ["sample"], ["ri_cholesky"]]
+
+
+def hist_tag(steps, target, derive=None):
+    return "steps=%s;target=%s;derive=%s" % ("+".join(steps), target, derive or "")
+
+
+def parse_tag(tag):
+    d = dict(x.split("=", 1) for x in tag.split(";"))
+    return {"steps": [x for x in d["steps"].split("+") if x], "target": d["target"], "derive": d["derive"] or None}
+
+
+def var_cells(quick):
+    classes = H.VAR_LEAVES + STRUCT_VAR
+    combos = [(b, k, n) for b in MULTI for k in (1, 2, 3) for n in SIZES]          # 84
+    cells, idx, cq = [], 0, 0
+    for ci, cls in enumerate(classes):
+        for si, sn in enumerate(SETTINGS):
+            picks = range(2) if quick else range(0, len(combos), 3)
+            for j in picks:
+                b, k, n = combos[((idx if quick else j) * 37 + ci * 5 + si) % len(combos)]
+                idx += 1
+                if sn == "ciq":
+                    # CIQ derives one quadrature rule per member and broadcasts it over the sample axis: needs k >= 2
+                    k, n = 2 + cq % 2, min(n, 3)
+                    if M.prod(BATCHES[b]) > 4:
+                        b = [2, 6, 7, 8, 3, 4][cq % 6]
+                    cq += 1
+                cells.append((cls, sn, b, k, n))
+    return cells
+
+
+def hist_cells(quick):
+    cells = []
+    nh = len(H.HISTORIES)
+    for hi, steps in enumerate(H.HISTORIES):
+        for bc in range(3):
+            bl = HIST_BATCH[bc]
+            for si, sn in enumerate(("default", "lanczos", "fastoff", "ciq")):
+                if sn in ("fastoff", "ciq") and quick and (hi + bc) % 4 != si:
+                    continue
+                reps = 1 if quick else (len(bl) if sn != "ciq" else 1)
+                for r in range(reps):
+                    b = bl[(hi + si + r) % len(bl)]
+                    for cr in range(1 if quick else 2):
+                        cls = HIST_CLS[(hi + 3 * bc + 5 * si + 7 * cr + r) % len(HIST_CLS)]
+                        n = [3, 5][(hi + bc + r) % 2] if sn != "default" else [3, 5, 2, 3, 1, 5][(hi + bc + r + cr) % 6]
+                        k = 1 + (hi + bc + si + r) % 3
+                        if sn == "ciq":
+                            n, k = 3, 2 + (hi % 2)
+                            if M.prod(BATCHES[b]) > 4:
+                                b = 7
+                        target = TARGETS[(hi + bc + cr) % 3]
+                        cells.append((cls, sn, b, k, n, hist_tag(steps, target)))
+    # derived operators: built from the history-laden object, then sampled
+    di = 0
+    for d in H.DERIVATIONS:
+        hists = TRANSPLANT_HIST if d in H.DERIVE_APPROX else H.DERIVE_HIST
+        sns = ("default", "fastoff") if d in H.DERIVE_APPROX else ("default", "lanczos")
+        for steps in hists:
+            for sn in sns:
+                for bc in (range(3) if not quick else [di % 3]):
+                    bl = HIST_BATCH[bc]
+                    b = bl[di % len(bl)]
+                    if d == "getitem_batch" and BATCHES[b][:1] in ([], [1]):
+                        b = [2, 5, 7][di % 3]
+                    cls = HIST_CLS[(di * 5) % 8 if d in H.DERIVE_APPROX else (di * 5) % len(HIST_CLS)]
+                    if d in H.DERIVE_APPROX:
+                        cls = ["DenseVar", "AddedDiagVar", "SumVar", "Dense"][di % 4]
+                    n = 3 + 2 * (di % 2)
+                    cells.append((cls, sn, b, 1 + di % 3, n, hist_tag(steps, "top", d)))
+                    di += 1
+    return cells
 
 
 def grid(ctx):
     """deterministic enumeration of structural cells; the seed only picks values"""
     cells = []
     classes = LEAF_GRID + STRUCT_GRID
-    combos = [(b, k, n) for b in range(len(BATCHES)) for k in KS for n in SIZES]          # 48
+    combos = [(b, k, n) for b in range(6) for k in KS for n in SIZES]          # 48
     snames = list(SETTINGS)
     if ctx.quick:
         per = 3
@@ -214,6 +302,8 @@ def grid(ctx):
             for sn in ("default", "lanczos"):
                 for b in (0, 2, 5):
                     cells.append((cls, sn, b, 2, 3))
+    cells += var_cells(ctx.quick)
+    cells += hist_cells(ctx.quick)
     seen = set()
     out = []
     for c in cells:
@@ -224,15 +314,18 @@ def grid(ctx):
 
 
 def make_case(seed, cell, idx):
-    cls, sn, b, k, n = cell
+    cls, sn, b, k, n = cell[:5]
     rng = random.Random("%s|%s|%d" % (seed, "|".join(map(str, cell)), 0))
     rot = rng.randrange(1000)
     try:
         e = gen_expr(rng, cls, BATCHES[b], n, rot)
     except Exception as ex:                       # generator limitation, not a finding
         return {"cell": cell, "gen_error": repr(ex)[:200]}
-    return {"cell": list(cell), "expr": e, "st_name": sn, "st": list(SETTINGS[sn]), "k": k,
+    case = {"cell": list(cell), "expr": e, "st_name": sn, "st": list(SETTINGS[sn]), "k": k,
             "nseed": rng.randrange(1 << 30)}
+    if len(cell) > 5:
+        case["history"] = parse_tag(cell[5])
+    return case
 
 
 # ----------------------------------------------------------------------------------------- evaluation of one case
@@ -306,10 +399,30 @@ def spectrum_ok(e):
     return ok[0]
 
 
+def member_err(cov, Af):
+    """largest entry of |cov - A| per batch member, each entry (i,j) measured against sqrt(A_ii A_jj) (the scale in
+    which a root's backward error is invariant under diagonal scaling), floored at 1e-3 of the member's largest entry;
+    cov: (k, B, n, n) or (B, n, n).  Returns (error, index of the worst member)."""
+    mx = Af.abs().amax(dim=(-2, -1))
+    mx = torch.where(mx > 0, mx, torch.ones_like(mx))
+    d = torch.diagonal(Af, dim1=-2, dim2=-1).clamp_min(0).sqrt()
+    den = torch.maximum(d[..., :, None] * d[..., None, :], 1e-3 * mx[..., None, None])
+    err = ((cov - Af).abs() / den).amax(dim=(-2, -1))
+    err = torch.where(torch.isnan(err), torch.full_like(err, float("inf")), err)
+    while err.dim() > 1:
+        err = err.amax(dim=0)
+    if not err.numel():
+        return 0.0, 0
+    j = int(err.argmax())
+    return float(err[j]), j
+
+
 def eval_case(case):
     """run the implementation on one case; returns a JSON-able result (and the Coq literal of the case)"""
     torch.set_num_threads(1)
     e, st, k = case["expr"], tuple(case["st"]), case["k"]
+    hist = case.get("history") or {}
+    steps, target, dname = hist.get("steps", []), hist.get("target", "top"), hist.get("derive")
     res = {"fails": [], "notes": [], "coq": None}
     A = opbuild.dense(e)
     try:
@@ -322,41 +435,61 @@ def eval_case(case):
     except Exception as ex:
         res["skip"] = "constructor raised %s" % repr(ex)[:160]
         return res
-    exp_shape = [k] + [int(x) for x in A.shape[:-1]]
     rng = random.Random(case["nseed"])
     inexact = False
+    hist_n = int(A.shape[-1])
     try:
-        with settings_ctx(st), N.patched() as patch:
-            out0, plan = N.run_with(patch, op.zero_mean_mvn_samples, k, None)
-            res["plan"] = [list(s) for s, _ in plan]
-            res["out_shape"] = [int(x) for x in out0.shape]
-            if out0.dtype != op.dtype:
-                res["fails"].append({"fail": "dtype", "observed": str(out0.dtype), "expected": str(op.dtype)})
-            if res["out_shape"] != exp_shape:
-                res["fails"].append({"fail": "shape", "observed": res["out_shape"], "expected": exp_shape})
-                return res
-            degenerate = (st[0] or (st[1] < 800 and st[2])) and not spectrum_ok(e)
-            if degenerate and not bool(torch.isfinite(out0).all()):
-                # NaN root from a Lanczos breakdown on a degenerate spectrum: properties C06 / C09
-                res["notes"].append("root accuracy not assessed (approximate root is not finite on a degenerate spectrum)")
-                res["root_failed"] = True
-                return res
-            if not st[0] and out0.numel() and float(out0.abs().max()) != 0.0:
-                res["fails"].append({"fail": "not-linear", "what": "non-zero draws from zero noise",
-                                     "observed": float(out0.abs().max())})
-            zs = [[rng.randint(-8, 8) / 4 for _ in range(M.prod(s))] for s, _ in plan]
-            out1, plan1 = N.run_with(patch, op.zero_mean_mvn_samples, k, zs)
-            base = None
-            if st[0]:      # CIQ: finite differences around generic noise (see c18_noise.jacobian)
-                g = torch.Generator().manual_seed(case["nseed"] % (1 << 31))
-                base = [N._real_randn(M.prod(s), generator=g, dtype=torch.float64) for s, _ in plan]
-            J, offs = N.jacobian(patch, op.zero_mean_mvn_samples, k, plan, base=base)
-            if node is not None:
-                M.resolve_roots(node, st)
+        with settings_ctx(st):
+            if steps:
+                # family (a): other public calls on the same object(s) first; they may fill the caches the sampler reads
+                leaf_ops = [lf["leaf"] for lf in (M.leaves(node) if node is not None else []) if lf["s"] == "gen"]
+                targets = {"top": [op], "leaf": leaf_ops or [op], "all": leaf_ops + [op] if leaf_ops != [op] else [op]}[target]
+                hist_n = max([hist_n] + [int(t.shape[-1]) for t in targets])
+                res["hist_raised"] = H.apply_history(targets, steps, case["nseed"])
+            if dname:
+                try:
+                    op, A = H.derive(dname, op, A, case["nseed"])
+                except Exception as ex:           # the derivation itself is not what C18 talks about
+                    res["skip"] = "derivation %s: %s" % (dname, repr(ex)[:120])
+                    return res
+                node = None
+                res["notes"].append("unmodelled: derived operator (%s)" % dname)
+            exp_shape = [k] + [int(x) for x in A.shape[:-1]]
+            with N.patched() as patch:
+                out0, plan = N.run_with(patch, op.zero_mean_mvn_samples, k, None)
+                res["plan"] = [list(s) for s, _ in plan]
+                res["out_shape"] = [int(x) for x in out0.shape]
+                if out0.dtype != op.dtype:
+                    res["fails"].append({"fail": "dtype", "observed": str(out0.dtype), "expected": str(op.dtype)})
+                if res["out_shape"] != exp_shape:
+                    res["fails"].append({"fail": "shape", "observed": res["out_shape"], "expected": exp_shape})
+                    return res
+                degenerate = (st[0] or (st[1] < 800 and st[2]) or H.history_approx(steps, hist_n, st[1])) and not spectrum_ok(e)
+                if degenerate and not bool(torch.isfinite(out0).all()):
+                    # NaN root from a Lanczos breakdown on a degenerate spectrum: properties C06 / C09
+                    res["notes"].append("root accuracy not assessed (approximate root is not finite on a degenerate spectrum)")
+                    res["root_failed"] = True
+                    return res
+                if not st[0] and out0.numel() and float(out0.abs().max()) != 0.0:
+                    res["fails"].append({"fail": "not-linear", "what": "non-zero draws from zero noise",
+                                         "observed": float(out0.abs().max())})
+                zs = [[rng.randint(-8, 8) / 4 for _ in range(M.prod(s))] for s, _ in plan]
+                if st[0]:
+                    # CIQ starts its eigenvalue-estimating Lanczos run at the first noise vector of every member: an
+                    # exactly zero vector (possible for dyadic noise, probability 0 for Gaussian noise) is degenerate
+                    zs = [[x if x != 0 else 0.25 for x in z] for z in zs]
+                out1, plan1 = N.run_with(patch, op.zero_mean_mvn_samples, k, zs)
+                base = None
+                if st[0]:      # CIQ: finite differences around generic noise (see c18_noise.jacobian)
+                    g = torch.Generator().manual_seed(case["nseed"] % (1 << 31))
+                    base = [N._real_randn(M.prod(s), generator=g, dtype=torch.float64) for s, _ in plan]
+                J, offs = N.jacobian(patch, op.zero_mean_mvn_samples, k, plan, base=base)
+                if node is not None:
+                    M.resolve_roots(node, st, observed=bool(steps))
     except Exception as ex:
         tb = traceback.extract_tb(ex.__traceback__)
         where = next((f for f in reversed(tb) if "linear_operator" in f.filename), tb[-1])
-        approx_setting = st[0] or (st[1] < 800 and st[2])
+        approx_setting = st[0] or (st[1] < 800 and st[2]) or H.history_approx(steps, hist_n, st[1])
         if approx_setting and os.path.basename(where.filename) in ("lanczos.py", "_root_decomposition.py", "contour_integral_quad.py",
                                                                     "minres.py", "linear_cg.py") and not spectrum_ok(e):
             # the approximate root itself broke down on a degenerate / ill-conditioned spectrum: properties C06 / C09 / C11
@@ -375,6 +508,7 @@ def eval_case(case):
         inexact = any(m in ("ciq", "lanczos") for m in methods) or \
             any(lf["s"] == "gen" and lf["method"] == "given" and lf["cls"] not in M.CONSTRUCTOR_ROOT and (st[1] < 800 and st[2])
                 for lf in gens)
+    inexact = inexact or H.history_approx(steps, hist_n, st[1])
     scale = max(1.0, float(A.abs().max()))
     Aq = A.reshape(-1, A.shape[-2], A.shape[-1])
     offd = Aq - torch.diag_embed(torch.diagonal(Aq, dim1=-2, dim2=-1))
@@ -393,11 +527,12 @@ def eval_case(case):
         if lin_tol is not None and not lin <= lin_tol:
             res["fails"].append({"fail": "not-linear", "what": "draws(z) != J z", "err": lin})
         cov = Jf @ Jf.transpose(-1, -2)                       # (k, B, n, n)
-        cov_err = float((cov - Af[None]).abs().max()) / scale
+        # per batch member, in that member's own scale (members of the var families differ by up to 64^2)
+        cov_err, worst = member_err(cov, Af)
         cross = 0.0
         for t in range(k):
             for t2 in range(t + 1, k):
-                cross = max(cross, float((Jf[t] @ Jf[t2].transpose(-1, -2)).abs().max()) / scale)
+                cross = max(cross, member_err(Jf[t] @ Jf[t2].transpose(-1, -2) + Af, Af)[0])
         res["cov_err"], res["cross"] = cov_err, cross
         if inexact:
             if spectrum_ok(e):
@@ -409,10 +544,10 @@ def eval_case(case):
             tol = 1e-9
         res["cov_tol"] = tol
         if tol is not None and not cov_err <= tol:
-            f = {"fail": "cov", "err": cov_err, "tol": tol}
+            f = {"fail": "cov", "err": cov_err, "tol": tol, "member": worst, "members": B}
             try:
-                At = transcribed_dense(e).reshape(B, n, n)
-                if float((cov - At[None]).abs().max()) / scale <= tol:
+                At = transcribed_dense(e).reshape(B, n, n) if not dname else None
+                if At is not None and member_err(cov, At)[0] <= tol:
                     f["cause"] = "chol-upper" if contains(e, lambda x: x["cls"] == "Chol" and x.get("upper")) else \
                         ("interp-asymmetric" if contains(e, interp_asym) else "unknown")
             except Exception:
@@ -571,9 +706,11 @@ def _worker(case):
         return {"fails": [], "notes": [], "coq": None, "harness_error": traceback.format_exc()[-1200:]}
 
 
-def run_cases(cases, workers=6):
+def run_cases(cases, workers=None):
     import multiprocessing as mp
     torch.set_num_threads(1)
+    if workers is None:
+        workers = int(os.environ.get("C18_WORKERS", "6"))
     if workers <= 1 or len(cases) < 8:
         return [_worker(c) for c in cases]
     with mp.get_context("fork").Pool(workers) as pool:
@@ -587,6 +724,12 @@ def case_key(case, f):
     for a in ("cause", "exc", "where"):
         if a in f:
             key[a] = f[a]
+    h = case.get("history")
+    if h:
+        key["history"] = "+".join(h["steps"])
+        key["target"] = h["target"]
+        if h.get("derive"):
+            key["derive"] = h["derive"]
     return key
 
 
